@@ -480,10 +480,11 @@ fn cmd_run(args: &[String]) -> R<i32> {
             let again = effective(run_list(&tier, out.seed, &out.config, &out.events, &tmp, "c", None)?, &known);
             if again.violation.as_ref().map(signature).as_deref() != Some(sig.as_str()) {
                 sum.harness_errors.push(format!(
-                    "FLAKY-REPLAY seed {} signature {} did not reproduce (got {:?})",
+                    "FLAKY-REPLAY seed {} signature {} did not reproduce (got {:?}); first time: {}",
                     out.seed,
                     sig,
-                    again.violation.as_ref().map(signature)
+                    again.violation.as_ref().map(signature),
+                    serde_json::to_string(&v.detail).unwrap_or_default().chars().take(700).collect::<String>()
                 ));
                 continue;
             }
